@@ -2,12 +2,48 @@
    Statements only (printed by Coq from the lemmas they are closed with); proofs in Proof/RegLemmas.v, Proof/RegInvariant.v; model Model/RegTable.v.
    [Inv t]: the table is initialised, its entries are ordered and disjoint, every register lies wholly inside one area, all words are 16 bit,
    and every register whose words decode holds a value that satisfies its constraint.
-   Proved: Inv is preserved by every checked typed operation (set, bit set, bit clear; accepted or refused) and hence by every history of them,
-   and under Inv every value a get delivers satisfies its register's constraint.  Not a theorem (correspondence only, partial): histories that
-   also contain block writes and sanitise (one-step facts about them: refused = unchanged, success = every overlapped register validated). *)
-From Ufw Require Import Base.Bits Model.RegTable Proof.RegLemmas Proof.RegInitLemmas Proof.RegInvariant.
+   [InvB t]: Inv t and the areas are ordered, disjoint and full.
+   Proved: InvB is preserved by EVERY checked operation - typed set, bit set, bit clear, block write (across area borders) and sanitise, accepted
+   or refused - and hence by every history of them; under it every value a get delivers satisfies its register's constraint.
+   Outside the invariant by construction: registers with the always-failing constraint (their default only validates during initialisation). *)
+From Ufw Require Import Base.Bits Model.RegTable Proof.RegLemmas Proof.RegInitLemmas Proof.RegInvariant Proof.RegMemory Proof.RegBlockInv.
 From Coq Require Import Bool Lia.
 Local Open Scope N_scope.
+
+(* the invariant survives every history of checked operations: typed set, bit set, bit clear, block write, sanitise *)
+Theorem C05_history_invariant_all :
+  forall (ops : list op_all) (t : table),
+         InvB t -> defaults_typed t -> Forall (op_all_ok t) ops -> InvB (fold_left run_op_all ops t).
+Proof. exact (@history_invariant_all). Qed.
+Print Assumptions C05_history_invariant_all.
+
+(* after any such history every value a get delivers satisfies the constraint of its register *)
+Theorem C05_history_get_all :
+  forall (ops : list op_all) (t : table) (idx : N) (e : entry) (v : rvalue),
+         InvB t ->
+         defaults_typed t ->
+         Forall (op_all_ok t) ops ->
+         entry_at (fold_left run_op_all ops t) idx = Some e ->
+         reg_get (fold_left run_op_all ops t) idx = (ASuccess, 0, Some v) -> validate false e v = true.
+Proof. exact (@history_get_all). Qed.
+Print Assumptions C05_history_get_all.
+
+(* one block write, accepted or refused, across area borders *)
+Theorem C05_block_write_preserves :
+  forall (t : table) (addr n : N) (buf : list N) (r : acc) (t' : table),
+         InvB t ->
+         n <= N.of_nat (length buf) ->
+         Forall (fun w : N => w < 65536) (firstn (N.to_nat n) buf) -> block_write t addr n buf = (r, t') -> InvB t'.
+Proof. exact (@block_write_preserves). Qed.
+Print Assumptions C05_block_write_preserves.
+
+(* one sanitise run *)
+Theorem C05_sanitise_preserves :
+  forall (t : table) (r : acc) (t' : table),
+         InvB t ->
+         Forall (fun e : entry => e_default e < 2 ^ tbits (e_type e)) (t_entries t) -> sanitise t = (r, t') -> InvB t'.
+Proof. exact (@sanitise_preserves). Qed.
+Print Assumptions C05_sanitise_preserves.
 
 (* the invariant survives every history of checked typed operations with well-typed operands *)
 Theorem C05_history_invariant :
